@@ -63,7 +63,7 @@ PROPS["C12"] = dict(
     text="Drives the real HTTP head, SOCKS4/4a/5 request (incl. negotiation and user/pass), SOCKS reply and RPFM stream-frame decoders, and the whole CONNECT handshake followed by the real relay, over a scripted stream whose segment boundaries are chosen: all 2^(n-1) cut sets for messages up to 14 bytes, every single cut, sampled pairs, one-byte-at-a-time and random sets beyond, each with and without Pending between segments and with trailing payload; requires identical parsed message, identical left-over bytes and identical bytes written back. Every strict prefix must be rejected (or end cleanly for the frame reader). End-to-end step: the same handshakes reach the shipped binary over sockets in two segments separated by real silence (0.3 s to 6 s, thorough up to 31 s), on the listener side and in the replies of fake upstream proxies; reply, tunnel and pipelined payload must be those of the unsegmented run.",
     note="trusted: message generators' rendering of the intended message; an HTTP head missing only its final LF is rejected like every other strict prefix since fix 6fe5f32",
     design_ref="DESIGN.md 3 C12",
-    steps=[inproc("c12"), e2e("c12"), miri("c12", thorough_only=True)],
+    steps=[inproc("c12", timeout=(300, 3600)), e2e("c12"), miri("c12", thorough_only=True)],
     assumptions=COMMON_ASSUME,
 )
 PROPS["C05"] = dict(
